@@ -60,8 +60,14 @@ fn run(line: &str) -> String {
                         emit::Emitter::emit(&*files, evt);
                         markers.push(marker);
                     }
-                    // a zero-timeout flush first (it may legitimately report false), then the real one
-                    let _ = emit::Emitter::blocking_flush(&*files, Duration::ZERO);
+                    // in odd rounds a zero-timeout flush first (it may legitimately report false), then the real one;
+                    // in even rounds the real flushes of all threads start together
+                    if r % 2 == 1 {
+                        let _ = emit::Emitter::blocking_flush(&*files, Duration::ZERO);
+                    } else {
+                        // everybody has finished emitting before anybody flushes
+                        barrier.wait();
+                    }
                     if emit::Emitter::blocking_flush(&*files, Duration::from_secs(30)) {
                         let content = on_disk(&dir);
                         let n = markers.iter().filter(|m| !content.contains(m.as_str())).count();
